@@ -150,6 +150,32 @@ def str_repr(bs, acc, d):
                                   '\n'.join([RT.SNIPPET_PRELUDE, "from bitstring import Bits, BitArray, ConstBitStream, BitStream", f"s = {RT.source(r, cls, d)}", f"bitstring.options.lsb0 = {lsb0}",
                                              f"assert bitstring.Bits(str(s)).bin == {d!r}, str(s)", f"r = eval(repr(s))", f"assert type(r) is type(s) and r.bin == {d!r}, repr(s)"]),
                                   d, (str(back)[:60], str(ev)[:60]))
+            # mutable objects created from a file, then changed in place: the printable forms must describe the new value
+            for ri, r in enumerate(('file_len', 'file_whole', 'file_handle_len', 'file_off3_len')):
+                cls = ('BitArray', 'BitStream')[(L + ri) % 2]
+                v = RT.build(bs, r, cls, d, _CTX[0])
+                if v is None:
+                    continue
+                for mi, (msrc, mut) in enumerate((("s.invert()", lambda x: x.invert()), ("s.append('0b1')", lambda x: x.append('0b1')), ("s.overwrite('0b0', 0); s.overwrite('0b1', 0)", None))):
+                    v = RT.build(bs, r, cls, d, _CTX[0])
+                    if mut is None:
+                        v.overwrite('0b0', 0)
+                        v.overwrite('0b1', 0)
+                    else:
+                        mut(v)
+                    if cls == 'BitStream':
+                        v.pos = 0
+                    now = v.bin
+                    st, rp = obs(lambda: str(v)), obs(lambda: repr(v))
+                    back = obs(lambda: bs.Bits(st[1]).bin) if st[0] == 'ok' else st
+                    ev = obs(lambda: eval(rp[1], dict(ns))) if rp[0] == 'ok' else rp
+                    acc.step('str', 1, nontrivial=1, ok=1)
+                    acc.step('repr', 1, nontrivial=1, ok=1)
+                    if not (back == ('ok', now) and ev[0] == 'ok' and type(ev[1]).__name__ == cls and ev[1].bin == now):
+                        acc.violation('repr', 'value', dict(cls=cls, bits=d, lsb0=lsb0, route=r, mutation=msrc, group=f'mutated-file|{r}'),
+                                      '\n'.join([RT.SNIPPET_PRELUDE, "from bitstring import Bits, BitArray, ConstBitStream, BitStream", f"bitstring.options.lsb0 = {lsb0}", f"s = {RT.source(r, cls, d)}", msrc,
+                                                 "s.pos = 0" if cls == 'BitStream' else "pass", "assert bitstring.Bits(str(s)) == s, str(s)", "r = eval(repr(s))", "assert type(r) is type(s) and r == s, repr(s)"]),
+                                      now, (str(back)[:60], str(ev)[:60], rp[1][:60] if rp[0] == 'ok' else rp))
         acc.outcome(('str', L, d[:12]))
     core.set_options()
     if L == 7:
